@@ -142,7 +142,7 @@ def trace_of(prog, result):
         post = ph["post"]
         sess = []
         for s in post["sess"]:
-            sess.append(dict(sid=s["sid"], pcur=s["pcur"], ecur=s["ecur"], fh=s["fh"], mem=s["mem"],
+            sess.append(dict(sid=s["sid"], pcur=s["pcur"], ecur=s["ecur"], fh=s["fh"], mem=s["mem"], ticking=(1 if s.get("ticking") else 0),
                              ents=[[e[0], e[1], e[2]] for e in s["ents"]],
                              acts=[[a[0], a[2]] for a in s["acts"]] + [[a[0], a[1]] for a in s.get("assets", [])]))
         conns_v = [[c["c"], c["sid"], c["pid"], c["own"]] for c in post["conns"] if c["c"] in CONNS]
